@@ -141,7 +141,7 @@ def near(bounds, q=0.125, big=16.0):
     return st.one_of(st.sampled_from(pts), dyadic())
 
 
-PROP_CARRIERS = ["f64", "f64", "f64", "list_none", "masked_junk", "masked_mixed", "masked_nan", "series"]
+PROP_CARRIERS = ["f64", "f64", "f64", "list_none", "masked_junk", "masked_mixed", "masked_nan", "masked_int", "series"]
 
 
 def with_carrier(case_strategy):
